@@ -28,14 +28,14 @@ def judge(v, rows, stats):
 def run(tier, seed):
     w = workdir("c13")
     v = Verdict(PID, tier, seed)
-    cfg = make_cfg("MC_KeyTable.cfg", {"MaxKeys": 4}, os.path.join(w, "kt.cfg"))
+    cfg = make_cfg("MC_KeyTable.cfg", {"MaxKeys": 4 if tier == "quick" else 6}, os.path.join(w, "kt.cfg"))
     g = tlc("KeyTable", cfg, "c13", workers=2, timeout=300)
     if not g.ok:
         raise vlib.ToolError("KeyTable.tla violates ParseMeetsSpec:\n" + g.violation[-2000:])
     cp = os.path.join(w, "cases.ndjson")
     write_ndjson(cp, g.replays)
     out = os.path.join(w, "out.ndjson")
-    vh(["c13", "--cases", cp, "--rotations", "5", "--out", out], timeout=3000)
+    vh(["c13", "--cases", cp, "--rotations", "5" if tier == "quick" else "10", "--out", out], timeout=3000)
     rows = read_ndjson(out)
     stats = {"evaluations": 0, "nontrivial": set()}
     judge(v, rows, stats)
@@ -43,7 +43,7 @@ def run(tier, seed):
     samples = [{"case": r["in"], "key_types": r["flavors"], "parsed": r["parsed"], "error": r["err"][:120]} for r in krows[len(krows) // 2: len(krows) // 2 + 3]]
     cov = {"states": g.distinct, "transitions": g.generated, "traces_validated_against_impl": len(rows),
            "samples": samples, "evaluations": stats["evaluations"], "distinct_nontrivial": len(stats["nontrivial"]),
-           "rule": "cases = every state of KeyTable.tla: tables of 1..4 keys x site {root keys, delegations keys} x one mutation {none, bit flip, swap with another entry, truncation, upper-case respelling, duplicate entry, duplicate in other hex case, unknown members with / without recomputed identifier} x position; each realised 5 times with the key types rotated (Ed25519 hex, RSA PEM, ECDSA PEM, ECDSA hex, old ECDSA key type); accepted tables are re-serialised and re-parsed twice; keys imported through tough::sign::parse_keypair are checked for stable identifiers; non-trivial = a mutation is present",
+           "rule": "cases = every state of KeyTable.tla: tables of 1..4 (thorough: 1..6) keys x site {root keys, delegations keys} x one mutation {none, bit flip, swap with another entry, truncation, upper-case respelling, duplicate entry, duplicate in other hex case, unknown members with / without recomputed identifier} x position; each realised 5 (thorough: 10) times with the key types rotated (Ed25519 hex, RSA PEM, ECDSA PEM, ECDSA hex, old ECDSA key type); accepted tables are re-serialised and re-parsed twice; keys imported through tough::sign::parse_keypair are checked for stable identifiers; non-trivial = a mutation is present",
            "exhaustive": True}
     return v.finish("model_checking", cov, ["TLC enumerates table shapes and states which must parse (the digest of a key is modelled as injective); the oracle digest is the harness's own SHA-256 over its own canonical JSON"])
 
